@@ -110,6 +110,14 @@ def local_env(fn):
             name = n.target.id
             if counts.get(name) == 1 and name not in params:
                 env[name] = n.value
+        elif isinstance(n, ast.Assign) and len(n.targets) == 1 and isinstance(n.targets[0], ast.Tuple) and isinstance(n.value, ast.Tuple) and \
+                len(n.targets[0].elts) == len(n.value.elts) and all(isinstance(t, ast.Name) for t in n.targets[0].elts):
+            # a, b = x, y  with none of the targets read on the right-hand side: two plain assignments
+            tnames = {t.id for t in n.targets[0].elts}
+            if not any(isinstance(x, ast.Name) and x.id in tnames for x in ast.walk(n.value)):
+                for t, v in zip(n.targets[0].elts, n.value.elts):
+                    if counts.get(t.id) == 1 and t.id not in params:
+                        env[t.id] = v
     # a comprehension variable with the same name is a different variable; do not expand those names at all
     for c in comp_bound:
         env.pop(c, None)
@@ -215,6 +223,19 @@ class _Canon(ast.NodeTransformer):
         # any([..]) / all([..]) : list and generator forms are the same test
         if isinstance(node.func, ast.Name) and node.func.id in ('any', 'all') and len(node.args) == 1 and isinstance(node.args[0], ast.ListComp):
             node.args[0] = ast.GeneratorExp(elt=node.args[0].elt, generators=node.args[0].generators)
+        # any(f(y) == X for y in S)  (no filter, X free of y)  ->  X in [f(y) for y in S] : a membership test
+        if isinstance(node.func, ast.Name) and node.func.id == 'any' and len(node.args) == 1 and isinstance(node.args[0], ast.GeneratorExp) and \
+                len(node.args[0].generators) == 1 and not node.args[0].generators[0].ifs and isinstance(node.args[0].elt, ast.Compare) and \
+                len(node.args[0].elt.ops) == 1 and isinstance(node.args[0].elt.ops[0], ast.Eq):
+            g = node.args[0].generators[0]
+            bound = {x.id for x in ast.walk(g.target) if isinstance(x, ast.Name)}
+            a, b = node.args[0].elt.left, node.args[0].elt.comparators[0]
+
+            def free(e):
+                return not any(isinstance(x, ast.Name) and x.id in bound for x in ast.walk(e))
+            if free(a) != free(b):
+                x_, f_ = (a, b) if free(a) else (b, a)
+                return ast.Compare(left=x_, ops=[ast.In()], comparators=[ast.ListComp(elt=f_, generators=[g])])
         return node
 
     def visit_Compare(self, node):
@@ -514,6 +535,35 @@ def _desugar(stmts, make):
                     new.handlers.append(h2)
                 if any(_has_return(x) for x in s.finalbody):
                     raise NoInline('return in finally')
+            out.append(new)
+            return out
+        if isinstance(s, (ast.For, ast.While)) and not s.orelse and len(rest) <= 1 and \
+                (not rest or (isinstance(rest[0], ast.Return) and (rest[0].value is None or isinstance(rest[0].value, (ast.Constant, ast.Name))))) and \
+                not any(isinstance(x, (ast.For, ast.While)) and any(_has_return(y) for y in x.body) for b_ in s.body for x in ast.walk(b_)):
+            # the search idiom: ``for e in C: ... if c: return V`` followed by ``return DEFAULT`` becomes
+            # ``<make(DEFAULT)>; for e in C: ... if c: <make(V)>; break``
+            default = rest[0] if rest else ast.copy_location(ast.Return(value=None), s)
+            pre = make(default)
+
+            def in_loop(body):
+                res = []
+                for j, b_ in enumerate(body):
+                    if isinstance(b_, ast.Return):
+                        res.extend(make(b_))
+                        res.append(ast.copy_location(ast.Break(), b_))
+                        return res
+                    if not _has_return(b_):
+                        res.append(b_)
+                        continue
+                    if isinstance(b_, ast.If):
+                        nb = ast.If(test=b_.test, body=in_loop(list(b_.body)) or [ast.Pass()], orelse=in_loop(list(b_.orelse)))
+                        res.append(ast.copy_location(nb, b_))
+                        continue
+                    raise NoInline(f'return inside {type(b_).__name__} inside a loop')
+                return res
+            new = copy.copy(s)
+            new.body = in_loop(list(s.body)) or [ast.Pass()]
+            out.extend(pre)
             out.append(new)
             return out
         raise NoInline(f'return inside {type(s).__name__} in non-tail position')
@@ -1645,3 +1695,121 @@ def bool_literals(test):
         out.append(n)
         out.append(canon(negate(n)))
     return out
+
+
+# ---------------------------------------------------------------------------
+# loops over constant tables: ``for a, b in TABLE: body`` with TABLE a class / module level tuple of tuples
+# ---------------------------------------------------------------------------
+
+def unroll_const_loops(prog, cls, fn, module=None, max_rows=60):
+    """Copy of ``fn`` in which every ``for <names> in <class or module level constant sequence literal>`` is replaced by one copy
+    of its body per row, the loop variables substituted by the row's expressions and the locals assigned inside the body
+    renamed per row (so that each copy is single-assignment). A walrus that is the first operand of an ``if`` test becomes an
+    assignment before the ``if``; ``getattr(x, '<name>', None)`` becomes ``x.<name>`` (an absent attribute reads as None,
+    which is what the ``is not None`` guards of this code base test). Loops with break / continue / else are left alone."""
+    module = module or (cls.module if cls is not None else None)
+    new = clone(fn)
+    counter = [0]
+
+    def table_of(it):
+        e = None
+        if isinstance(it, ast.Attribute) and isinstance(it.value, ast.Name) and cls is not None and \
+                (it.value.id in ('self', 'cls') or it.value.id == cls.simple or any(c.simple == it.value.id for c in cls.mro())):
+            _, e = cls.find_assign(it.attr)
+        elif isinstance(it, ast.Name) and module is not None:
+            e = module.assigns.get(it.id)
+        if isinstance(e, (ast.Tuple, ast.List)) and e.elts and len(e.elts) <= max_rows:
+            return e.elts
+        return None
+
+    class _Sub(ast.NodeTransformer):
+        def __init__(self, mapping, renames):
+            self.mapping, self.renames = mapping, renames
+
+        def visit_Name(self, node):
+            if node.id in self.mapping and isinstance(node.ctx, ast.Load):
+                return ast.copy_location(clone(self.mapping[node.id]), node)
+            if node.id in self.renames:
+                return ast.copy_location(ast.Name(id=self.renames[node.id], ctx=node.ctx), node)
+            return node
+
+    def hoist_walrus(stmts):
+        out = []
+        for st in stmts:
+            if isinstance(st, ast.If):
+                t = st.test
+                first = t
+                holder = None
+                while True:
+                    if isinstance(first, ast.BoolOp):
+                        holder, first = first, first.values[0]
+                    elif isinstance(first, ast.Compare):
+                        holder, first = first, first.left
+                    elif isinstance(first, ast.UnaryOp):
+                        holder, first = first, first.operand
+                    else:
+                        break
+                if isinstance(first, ast.NamedExpr) and isinstance(first.target, ast.Name):
+                    out.append(ast.copy_location(ast.Assign(targets=[ast.Name(id=first.target.id, ctx=ast.Store())], value=first.value, lineno=st.lineno), st))
+                    repl = ast.copy_location(ast.Name(id=first.target.id, ctx=ast.Load()), first)
+                    if holder is None:
+                        st.test = repl
+                    elif isinstance(holder, ast.BoolOp):
+                        holder.values[0] = repl
+                    elif isinstance(holder, ast.Compare):
+                        holder.left = repl
+                    else:
+                        holder.operand = repl
+            out.append(st)
+        return out
+
+    def block(stmts):
+        out = []
+        for st in stmts:
+            for field in ('body', 'orelse', 'finalbody'):
+                v = getattr(st, field, None)
+                if isinstance(v, list) and v and isinstance(v[0], ast.stmt) and not isinstance(st, (ast.FunctionDef, ast.AsyncFunctionDef, ast.ClassDef)):
+                    setattr(st, field, block(v))
+            if isinstance(st, ast.For) and not st.orelse and \
+                    not any(isinstance(x, (ast.Break, ast.Continue)) for b_ in st.body for x in ast.walk(b_)):
+                rows = table_of(st.iter)
+                targets = st.target.elts if isinstance(st.target, ast.Tuple) else [st.target]
+                if rows is not None and all(isinstance(t, ast.Name) for t in targets):
+                    ok = True
+                    copies = []
+                    stored = {x.id for b_ in st.body for x in ast.walk(b_) if isinstance(x, ast.Name) and isinstance(x.ctx, ast.Store)}
+                    for r in rows:
+                        vals = r.elts if (isinstance(st.target, ast.Tuple) and isinstance(r, (ast.Tuple, ast.List))) else [r]
+                        if len(vals) != len(targets):
+                            ok = False
+                            break
+                        counter[0] += 1
+                        mapping = {t.id: v for t, v in zip(targets, vals)}
+                        renames = {nm: f'{nm}__row{counter[0]}' for nm in stored}
+                        body = [_Sub(mapping, renames).visit(clone(b_)) for b_ in st.body]
+                        copies.extend(hoist_walrus(body))
+                    if ok:
+                        for c_ in copies:
+                            ast.copy_location(c_, st)
+                        out.extend(copies)
+                        continue
+            out.append(st)
+        return out
+    new.body = block(list(new.body))
+
+    class _G3(ast.NodeTransformer):
+        def visit_Call(self, node):
+            self.generic_visit(node)
+            if isinstance(node.func, ast.Name) and node.func.id == 'getattr' and len(node.args) == 3 and not node.keywords and \
+                    isinstance(node.args[1], ast.Constant) and isinstance(node.args[1].value, str) and node.args[1].value.isidentifier() and \
+                    isinstance(node.args[2], ast.Constant) and node.args[2].value is None:
+                return ast.copy_location(ast.Attribute(value=node.args[0], attr=node.args[1].value, ctx=ast.Load()), node)
+            return node
+    _G3().visit(new)
+    ast.fix_missing_locations(new)
+    for attr in ('_inlined', '_cls', '_orig'):
+        if hasattr(fn, attr):
+            setattr(new, attr, getattr(fn, attr))
+    if not hasattr(new, '_cls'):
+        new._cls = cls
+    return _set_parents(new)
